@@ -32,7 +32,9 @@ WRITES = ["assign", "typed", "+=", "-=", "*=", "/=", "%=", "?=stmt", "?=if", "?=
           # ... and through the unwrapped value of an optional constant
           "(get).field+=", "(or).field+=", "((get).field)[i]+=", "(get)[i]+=", "(or)[i]+=",
           # a type alias declared with the constant's name, then an assignment to the name
-          "alias-then-assign"]
+          "alias-then-assign",
+          # unpacking onto SEVERAL existing names at once (a second constant cst2 stands next to the first)
+          "unpack-two-consts", "unpack-two-consts-swapped", "unpack-fresh-and-two-consts", "unpack-const-and-variable"]
 CONTEXTS = ["same", "block", "block2", "while", "from", "fn", "fn-in-fn", "method", "else", "method-sibling-param", "method-ctor-param", "method-later-sibling-param",
             # the nested function first makes a LOCAL with the constant's name, then writes from a nested block (a `modify` there still means the captured constant)
             "fn-local-then-block"]
@@ -85,12 +87,20 @@ def write_stmt(w, name, ty):
         return text.replace("N", name) if ty == need else None
     if w == "alias-then-assign":
         return f"type {name} {tt}\n{name} = {other}" if ty in ("int", "str", "obj", "list") else None
-    if ty in ("obj", "nested", "optobj", "optlist") and w not in ("assign", "typed", "modify", "modify-typed", "unpack"):
+    if ty in ("obj", "nested", "optobj", "optlist") and w not in ("assign", "typed", "modify", "modify-typed", "unpack") and not w.startswith("unpack-"):
         return None
     if w == "loopcounter":
         return f"from 0 to 3, {name} {{\n}}" if ty == "int" else None
     if w == "unpack":
         return f"[{name}, unp2] = [{other}, {other}]"
+    if w == "unpack-two-consts":
+        return f"[{name}, {name}2] = [{other}, {other}]"
+    if w == "unpack-two-consts-swapped":
+        return f"[{name}2, {name}] = [{other}, {other}]"
+    if w == "unpack-fresh-and-two-consts":
+        return f"[unp1, {name}, {name}2] = [{other}, {other}, {other}]"
+    if w == "unpack-const-and-variable":
+        return f"[{name}, pv9] = [{other}, {other}]"
     raise ValueError(w)
 
 
@@ -170,6 +180,9 @@ def program(decl, w, ctx, ty, const, pre="none"):
         before = [f"if true {{\n cst: {tt} = {other}\n}}"]
     elif pre == "const-before-in-sibling-block":
         before = [f"if true {{\n const cst: {tt} = {other}\n}}"]
+    if w.startswith("unpack-"):
+        # the companions of the unpacking forms: a second constant and an ordinary variable, declared next to the first
+        declline += f"\n{kw}cst2: {tt} = {init}\npv9: {tt} = {init}"
     body = [give_fn(ty)] + before + [declline, wrap(ctx, stmt, tt).replace("SHADOW", other), "print " + OBSERVE.get(ty, "cst")]
     text = "\n".join(body)
     pre_ = PRELUDE[ty] + "\n" if ty in PRELUDE else ""
